@@ -381,7 +381,9 @@ class SynchronizationState(_OnState):
             # accept any master remotely selected
             self.state_modes.accept_master()
             # the Master Supvisors instance must be seen as running
-            if self.state_modes.master_identifier and self.context.master_instance.running:
+            # NOTE: the Master declared by a remote Supvisors instance may be unknown to the local instance
+            master_instance = self.context.master_instance
+            if self.state_modes.master_identifier and master_instance and master_instance.running:
                 self.logger.info('SynchronizationState.check_end_sync_user: the Supvisors Master instance is RUNNING')
                 return True
             return False
